@@ -662,7 +662,9 @@ Proof.
                    (child_parent info (c_opts c)) Hi).
   destruct (rec st _ _ _ _) as [[st1 ev1] s1]. cbn in Hrec.
   destruct s1; cbn; try exact Hrec.
-  specialize (IH st1 info Hrec). destruct (run_calls rec st1 info r) as [[st2 ev2] s2]. exact IH.
+  - specialize (IH st1 info Hrec). destruct (run_calls rec st1 info r) as [[st2 ev2] s2]. exact IH.
+  - destruct (c_swallow c); [|exact Hrec].
+    specialize (IH st1 info Hrec). destruct (run_calls rec st1 info r) as [[st2 ev2] s2]. exact IH.
 Qed.
 
 (** from the initial state, every state a run goes through satisfies the invariant: all
@@ -682,7 +684,7 @@ Proof.
   destruct (w_content w (d_file d)) as [pp|]; [|exact Hi2].
   pose proof (run_calls_inv (w_env w) (run_pipeline f w) IH (p_calls pp) st2 (d_info d) Hi2) as Hc.
   destruct (p_mod pp) as [m|].
-  - destruct (find_module _ _ _); [|exact Hi2].
+  - destruct (get_module _ _ _); try exact Hi2.
     destruct (run_calls _ _ _ _) as [[st3 ev] s3]. exact Hc.
   - destruct (run_calls _ _ _ _) as [[st3 ev] s3]. exact Hc.
 Qed.
@@ -693,3 +695,26 @@ Proof. split; [apply sys_inv_init|intros l k d []]. Qed.
 (** ... and so does a start with pre-existing sys.path entries (nothing known yet) *)
 Lemma st_inv_pre e pre : st_inv e (state_pre pre).
 Proof. split; [intros p []|intros l k d []]. Qed.
+
+
+(** ... across consecutive root runs in one process as well *)
+Theorem run_roots_inv w : forall invs st,
+  st_inv (w_env w) st -> st_inv (w_env w) (fst (fst (run_roots w st invs))).
+Proof.
+  induction invs as [|[[l pd] n] rest IH]; intros st Hi; cbn; [exact Hi|].
+  pose proof (run_pipeline_inv FUEL w st l pd n PNone Hi) as H1.
+  destruct (run_pipeline FUEL w st l pd n PNone) as [[st1 ev1] s1]. cbn in H1.
+  destruct rest as [|i2 rest']; [exact H1|].
+  destruct s1; try exact H1;
+    (specialize (IH st1 H1); destruct (run_roots w st1 (i2 :: rest')) as [[st2 ev2] s2]; exact IH).
+Qed.
+
+(** a module file next to a file-loaded pipeline: the import attempt succeeds whatever was
+    asked for, and failed, earlier — [get_module] looks at the current sys.path only *)
+Theorem get_module_sibling e sp dir m :
+  In dir sp -> is_abs dir = true -> e_is_file e (joinpath dir (m ++ ".py")) = true ->
+  exists mp, get_module e sp m = Ok mp.
+Proof.
+  intros Hin Ha Hf. destruct (sibling_module_importable e sp dir m Hin Ha Hf) as [mp H].
+  exists mp. unfold get_module. rewrite H. reflexivity.
+Qed.
